@@ -887,7 +887,14 @@ def rule_params_forwarded_(ctx: Ctx, rep: Report) -> None:
     rule_params_forwarded(ctx, rep, "C05.params_forwarded", ('btclib.tx', 'btclib.block.block_header', 'btclib.p2p', 'btclib.var_', 'btclib.utils'), 40)
 
 
+def rule_no_inplace_growth_(ctx: Ctx, rep: Report) -> None:
+    """C05.no_inplace_growth: a local that starts as a parameter (or a field of one) is never grown with `+=` (see sigcommon.rule_no_inplace_growth)."""
+    from rules.sigcommon import rule_no_inplace_growth
+    rule_no_inplace_growth(ctx, rep, "C05.no_inplace_growth", ('btclib.tx', 'btclib.block', 'btclib.p2p', 'btclib.var_', 'btclib.psbt', 'btclib.bip32.key_origin', 'btclib.script.witness'), 1)
+
+
 RULES = [
+    ("C05.no_inplace_growth", rule_no_inplace_growth_),
     ("C05.params_forwarded", rule_params_forwarded_),
     ("C05.own_fields", rule_own_fields),
     ("C05.psbt_whole_key", rule_psbt_whole_key),
@@ -913,6 +920,8 @@ def _flip_signed(qual: str, index: int = 0):
 
 
 CONTROLS = [
+    {"rule": "C05.no_inplace_growth", "name": "Message.serialize starts from its own magic (F21)", "module": "btclib.p2p.message",
+     "edit": lambda ctx: M.sub_expr(ctx, "btclib.p2p.message.Message.serialize", M.is_text("out = bytes(self.magic)"), "out = self.magic")},
     {"rule": "C05.psbt_whole_key", "name": "the version pre-reader stops at the first key of its type (F11)", "module": "btclib.psbt.psbt",
      "edit": lambda ctx: M.sub_expr(ctx, "btclib.psbt.psbt._global_version", lambda n: isinstance(n, ast.Assign) and isinstance(n.value, ast.Call) and call_name(n.value) == "deserialize_sized_int",
                                     lambda n: "return " + norm(n.value))},
